@@ -131,7 +131,7 @@ def bindParams (r : Resolver) : List (String × Bound) → Resolver
 /-- … and the `SymbolNode`s of the deferred ones -/
 def deferredNodes : List (String × Bound) → List Node
   | [] => []
-  | (p, .deferred e) :: rest => Node.symbol p e :: deferredNodes rest
+  | (p, .deferred e) :: rest => Node.argSymbol p e :: deferredNodes rest
   | _ :: rest => deferredNodes rest
 
 /-- generate a statement list with a generator for single statements -/
